@@ -87,10 +87,10 @@ func uniq(in []string) []string {
 type labelRes struct {
 	visiting map[*types.Var]bool
 	diverged string // set when two sources of one tag list disagree on the label names (a defect, not an unknown)
-	p      *Prog
-	tagFn  *ssa.Function // metrics.Tag
-	tType  types.Type    // metrics.T
-	nameFv *types.Var    // metrics.T.Name
+	p        *Prog
+	tagFn    *ssa.Function // metrics.Tag
+	tType    types.Type    // metrics.T
+	nameFv   *types.Var    // metrics.T.Name
 }
 
 // tagNames resolves a metrics.T value to the set of label NAMES it can carry.
@@ -1097,7 +1097,6 @@ func (p *Prog) allocSitesOf(v ssa.Value, depth int, seen map[ssa.Value]bool) ([]
 	}
 	return out, true
 }
-
 
 // ---------- R6: label values are sanitised ----------
 
